@@ -444,7 +444,9 @@ def gen_nl_cases(out, tier, rng):
             O.native_pix_transform = orig
         # the scale estimate (least-squares fit through 5 PROJ points) is an oracle: keep its points out of the table
         empty = r.roi_dst[0].stop <= r.roi_dst[0].start or r.roi_dst[1].stop <= r.roi_dst[1].start
+        sc_at = (0.0, 0.0)
         if not empty:
+            sc_at = tab_b[-5][0]          # get_scale_at_point: first of its five points is the centre itself
             tab_b = tab_b[:-5]
 
         def ctab(tab):
@@ -453,7 +455,7 @@ def gen_nl_cases(out, tier, rng):
             return "[" + "; ".join(ctuple(G.cqq(p), cpt(q)) for p, q in tab) + "]"
 
         sc = "(Err EOther)" if empty else f"(Ok {G.cqq(r.scale2.xy)})"
-        text = (f"CReprojNL {G.cconsts()} {ctab(tab_b)} {ctab(tab_f)} {sc} {G.cpair(src.shape)} {G.cpair(dst.shape)} "
+        text = (f"CReprojNL {G.cconsts()} {ctab(tab_b)} {ctab(tab_f)} {G.cqq(sc_at)} {sc} {G.cpair(src.shape)} {G.cpair(dst.shape)} "
                 f"{copt(kw['padding'])} {copt(kw['align'])} (Ok {G.cinfo(r)})")
         cases.append(text)
         out.count("reproject-crs:" + ("empty" if empty else "overlap"))
@@ -572,6 +574,9 @@ def p_reproject_crs(i, seed_tag):
     why = f"src={src!r} dst={dst!r} kw={kw} roi_src={r.roi_src} roi_dst={r.roi_dst}"
     if not (0 <= sy0 <= sy1 <= ny and 0 <= sx0 <= sx1 <= nx and 0 <= dy0 <= dy1 <= my and 0 <= dx0 <= dx1 <= mx):
         return False, why + ": region outside its image", None
+    ok, msg = check_crs_scale(src, dst, r)
+    if not ok:
+        return False, why + f" scale={r.scale!r} read_shrink={r.read_shrink}" + msg, None
     if mx == 0 or my == 0:
         return True, why, None
     cc = [xy_(x + 0.5, y + 0.5) for y in range(my) for x in range(mx)]
@@ -594,7 +599,114 @@ def p_reproject_crs(i, seed_tag):
     return True, why, slack
 
 
-PREDICATES = {"axis": p_axis, "reproject": p_reproject}
+SCALE_RTOL = 1e-6
+
+
+def ref_scale2(src, dst, cx, cy):
+    """Independent reference for get_scale_at_point: pyproj directly, central differences with step 1
+    around the destination pixel-plane point (cx, cy); sx = |image of the x step|, sy = |det| / sx
+    (the Cholesky diagonal the code takes).  The code fits an affine by least squares through the
+    symmetric 5-point stencil of radius 1 - its linear part IS the central difference, so the two agree
+    up to binary64 rounding of the unnormalised lstsq (measured <= 1e-10 relative for pixel coordinates
+    up to 3e4; SCALE_RTOL = 1e-6 leaves four orders of magnitude)."""
+    from pyproj import Transformer
+    tr = Transformer.from_crs(dst.crs.to_wkt(), src.crs.to_wkt(), always_xy=True)
+    Si = ~src.transform
+
+    def to_src(px, py):
+        wx, wy = dst.transform * (px, py)
+        return Si * tr.transform(wx, wy)
+
+    x1, x0 = to_src(cx + 1, cy), to_src(cx - 1, cy)
+    y1, y0 = to_src(cx, cy + 1), to_src(cx, cy - 1)
+    a, d = (x1[0] - x0[0]) / 2, (x1[1] - x0[1]) / 2
+    b, e = (y1[0] - y0[0]) / 2, (y1[1] - y0[1]) / 2
+    sx = math.hypot(a, d)
+    return sx, abs(a * e - b * d) / sx
+
+
+def check_crs_scale(src, dst, r):
+    """scale / read_shrink of a different-CRS plan against the reference at the centre of roi_dst"""
+    (dy0, dy1), (dx0, dx1) = [(s.start, s.stop) for s in r.roi_dst]
+    if dy1 <= dy0 or dx1 <= dx0:
+        ok = r.scale == 0 and r.read_shrink == 1
+        return ok, "" if ok else ": empty overlap must report scale 0 and read_shrink 1"
+    cx, cy = (dx0 + dx1) / 2, (dy0 + dy1) / 2
+    sx, sy = ref_scale2(src, dst, cx, cy)
+    if not (math.isfinite(sx) and math.isfinite(sy) and sx > 0 and sy > 0):
+        return True, ""
+    ref = min(sx, sy)
+    if abs(r.scale - ref) > SCALE_RTOL * ref:
+        tx, ty = ref_scale2(src, dst, cy, cx)
+        return False, (f": reported scale {r.scale!r} is not the smaller per-axis ratio at the centre of the overlap "
+                       f"(x={cx}, y={cy}): reference {ref!r} (sx={sx!r}, sy={sy!r}); at the transposed point it would be {min(tx, ty)!r}")
+    k = r.read_shrink
+    if not (isinstance(k, int) and k >= 1):
+        return False, ": read_shrink is not a positive integer"
+    # expected read_shrink from the reference, unless the reference is within 1e-5 of a decision boundary
+    n = math.floor(ref) + 1
+    near = min(abs(ref - 1), abs(ref - round(ref)), abs(ref - (n - 1e-3))) < 1e-5
+    if not near:
+        want = 1 if ref < 1 else (n if n - ref < 1e-3 else math.floor(ref))
+        if k != want:
+            return False, f": read_shrink {k} but scale {ref!r} at the centre of the overlap calls for {want}"
+    return True, ""
+
+
+def p_crs_scale(src_crs, src_shape, src_aff, dst_crs, dst_shape, dst_aff, kw):
+    """different CRS, any size (no pixel enumeration): regions inside the images, scale and read_shrink
+    measured at the centre of the overlap"""
+    from affine import Affine
+    from odc.geo.geobox import GeoBox
+    from odc.geo.overlap import compute_reproject_roi
+    src = GeoBox(tuple(src_shape), Affine(*src_aff), src_crs)
+    dst = GeoBox(tuple(dst_shape), Affine(*dst_aff), dst_crs)
+    with warnings.catch_warnings():
+        warnings.simplefilter("ignore")
+        r = compute_reproject_roi(src, dst, **kw)
+    (ny, nx), (my, mx) = src.shape, dst.shape
+    (sy0, sy1), (sx0, sx1) = [(s.start, s.stop) for s in r.roi_src]
+    (dy0, dy1), (dx0, dx1) = [(s.start, s.stop) for s in r.roi_dst]
+    why = f"roi_src={r.roi_src} roi_dst={r.roi_dst} scale={r.scale!r} scale2={r.scale2} read_shrink={r.read_shrink}"
+    if not (0 <= sy0 <= sy1 <= ny and 0 <= sx0 <= sx1 <= nx and 0 <= dy0 <= dy1 <= my and 0 <= dx0 <= dx1 <= mx):
+        return False, why + ": region outside its image"
+    ok, msg = check_crs_scale(src, dst, r)
+    return ok, why + msg
+
+
+def strip_stream(rng, n):
+    """lon/lat source with fine pixels, Web-Mercator (and UTM / equal-area) destinations that are strongly
+    non-square strips over a range of latitudes: the local scale varies along the strip"""
+    from pyproj import Transformer
+    src_aff = [2.0 ** -10, 0.0, -20.0, 0.0, -(2.0 ** -10), 75.0]
+    src_shape = [80 * 1024, 60 * 1024]            # lon -20..40, lat -5..75
+    fixed = [("EPSG:3857", 10.0, 2.0, 11.0, 70.0, 500.0), ("EPSG:3857", -15.0, 60.0, 35.0, 66.0, 500.0),
+             ("EPSG:3857", 5.0, 40.0, 7.0, 41.5, 500.0), ("EPSG:6933", 0.0, 5.0, 1.0, 65.0, 1000.0)]
+    for i in range(n):
+        if i < len(fixed):
+            crs, lon0, lat0, lon1, lat1, res = fixed[i]
+        else:
+            crs = rng.choice(["EPSG:3857", "EPSG:3857", "EPSG:6933", "EPSG:3035"])
+            tall = rng.random() < 0.5
+            lon0, lat0 = rng.uniform(-18, 30), rng.uniform(-3, 55)
+            if crs == "EPSG:3035":
+                lon0, lat0 = rng.uniform(-5, 25), rng.uniform(36, 55)
+            if tall:
+                lon1, lat1 = lon0 + rng.uniform(0.2, 1.5), min(72.0, lat0 + rng.uniform(8, 60))
+            else:
+                lon1, lat1 = min(38.0, lon0 + rng.uniform(8, 40)), lat0 + rng.uniform(0.2, 3)
+            res = rng.choice([250.0, 500.0, 1000.0, 4000.0])
+        m = Transformer.from_crs("EPSG:4326", crs, always_xy=True)
+        xs, ys = zip(*[m.transform(lo, la) for lo in (lon0, lon1) for la in (lat0, lat1)])
+        x0, x1, y0, y1 = min(xs), max(xs), min(ys), max(ys)
+        nx, ny = int((x1 - x0) / res), int((y1 - y0) / res)
+        if not (2 <= nx <= 30000 and 2 <= ny <= 30000):
+            continue
+        yield ["EPSG:4326", src_shape, src_aff, crs, [ny, nx], [res, 0.0, float(x0), 0.0, -res, float(y1)],
+               {"padding": rng.choice([None, None, 0, 2]), "align": rng.choice([None, None, 0, 16])}]
+
+
+PREDICATES = {"axis": p_axis, "reproject": p_reproject, "crs_scale": p_crs_scale}
 
 
 def search(out, tier):
@@ -650,6 +762,34 @@ def search(out, tier):
         kw2 = dict(kw)
         out.count("search-family:" + fam)
         run("reproject", list(src.shape), list(dst.shape), [str(v) for v in A], kw2)
+    # paste path with read_shrink k >= 2 and source sizes of every remainder mod k (the last, partial overview
+    # pixel is needed as soon as the remainder exceeds k/2), plain and mirrored, destination covering the source
+    for k in (2, 3, 4, 5, 8):
+        for N in range(1, 2 * k + 2):
+            M = -(-N // k)
+            for mir in (False, True):
+                other = rng.randint(1, 9)
+                for axis in (0, 1):
+                    ns = [other * k, other * k]
+                    ns[axis] = N
+                    nd = [other + 1, other + 1]
+                    nd[axis] = M + rng.choice([0, 1])
+                    off = rng.choice([0, 0, -k])
+                    sxy = [Fr(k), Fr(k)]
+                    txy = [Fr(0), Fr(0)]
+                    j = 1 - axis            # A6 index: x first
+                    if mir:
+                        sxy[j] = Fr(-k)
+                        txy[j] = Fr(k * M + off)     # far end of the k-fold overview maps to destination 0
+                    else:
+                        txy[j] = Fr(off)
+                    out.count("search-family:shrink-remainder")
+                    run("reproject", ns, nd, [str(v) for v in (sxy[0], 0, txy[0], 0, sxy[1], txy[1])],
+                        {"ttol": 0.05, "stol": 1e-3, "padding": None, "align": None})
+    # different CRS, strongly non-square overlaps with spatially varying scale: scale / read_shrink at the centre
+    for args in strip_stream(rng, 40 if tier == "quick" else 400):
+        out.count("search-family:crs-strip")
+        run("crs_scale", *args)
     # different CRS: dense check of the enclosing hypothesis
     m = 12 if tier == "quick" else 240
     worst = None
@@ -709,6 +849,8 @@ def run(out, tier, scratch):
         "binary64 arithmetic abstracted to exact rationals; correspondence restricted to inputs on which every float operation is exact",
         "sqrt(x*x) = |x| in binary64 (used for axis-aligned transforms in get_scale_from_linear_transform)",
         "different CRS: the PROJ point transform and get_scale_at_point are oracles; inclusion holds under H_boundary_encloses (tested, not proved)",
+        "different CRS scale: judged against pyproj central differences (step 1 px) at the centre of roi_dst with relative tolerance 1e-6 "
+        "(same stencil as the code's least-squares fit; observed agreement <= 1e-10 for pixel coordinates up to 3e4)",
     ]
     rng = core.rng("c03")
     cases = gen_function_cases(out, tier, rng)
